@@ -34,14 +34,132 @@ Section Proofs.
   Definition frame (A : path) (f f' : fs) : Prop :=
     forall q, q <> A -> q <> bak A -> f' q = f q.
 
-  Ltac pe :=
-    repeat match goal with
-           | |- context [path_eq_dec ?a ?b] => destruct (path_eq_dec a b); try congruence
-           | H : context [path_eq_dec ?a ?b] |- _ => destruct (path_eq_dec a b); try congruence
-           end.
+  (** ** Footprint semantics
+      [save] only ever reads and writes the two paths A and A.bak.  [save2] is
+      the same program on that footprint (a pair of cells); [save_sim] proves
+      that [save] on any file system acts on (A, A.bak) exactly as [save2] and
+      leaves every other path alone.  The theorems are then proved on [save2]
+      by symbolic evaluation and transferred. *)
+  Definition cell := option content.
 
-  (* symbolic evaluation of [save] along one schedule: split lazily on the
-     schedule entries the evaluation actually consults *)
+  Definition body2 (pos : dumps_pos) (new : option content) (sch : schedule) (a : cell)
+    : cell * outcome :=
+    match dumps_at (match pos with DBeforeOpen => true | _ => false end) sch new with
+    | Some k => (a, Raised k SDumps)
+    | None =>
+    match sch SOpen with
+    | Some ft => (fdisk ft, Raised (fkind ft) SOpen)
+    | None =>
+        let '(a2, body) :=
+          match dumps_at (match pos with DInside => true | _ => false end) sch new with
+          | Some k => (Some [], Raised k SDumps)
+          | None =>
+              match new with
+              | None => (Some [], Raised KExc SDumps)
+              | Some c =>
+                  match sch SWrite with
+                  | Some ft => (fdisk ft, Raised (fkind ft) SWrite)
+                  | None => (Some ([] ++ c), Done)
+                  end
+              end
+          end in
+        match sch SClose with
+        | Some ft => (fdisk ft, Raised (fkind ft) SClose)
+        | None => (a2, body)
+        end
+    end
+    end.
+
+  Definition save2 (pos : dumps_pos) (keep : bool) (new : option content) (sch : schedule)
+             (v : cell * cell) : (cell * cell) * outcome :=
+    match dumps_at (match pos with DFirst => true | _ => false end) sch new with
+    | Some k => (v, Raised k SDumps)
+    | None =>
+    match sch SBackup with
+    | Some ft => (v, Raised (fkind ft) SBackup)
+    | None =>
+    match fst v with
+    | None => (v, Raised KExc SBackup)
+    | Some c0 =>
+        let '(a2, r) := body2 pos new sch None in
+        match r with
+        | Raised KExc s =>
+            match sch SRestore with
+            | Some ft => ((a2, Some c0), Raised (fkind ft) SRestore)
+            | None => ((Some c0, None), Raised KExc s)
+            end
+        | Raised KBase s => ((a2, Some c0), Raised KBase s)
+        | Done =>
+            if keep then ((a2, Some c0), Done)
+            else match sch SRemove with
+                 | Some ft => ((a2, Some c0), Raised (fkind ft) SRemove)
+                 | None => ((a2, None), Done)
+                 end
+        end
+    end
+    end
+    end.
+
+  (* g is f with the footprint set to v *)
+  Definition agrees (A : path) (f g : fs) (v : cell * cell) : Prop :=
+    g A = fst v /\ g (bak A) = snd v /\ frame A f g.
+
+  Lemma agrees_refl : forall A f, agrees A f f (f A, f (bak A)).
+  Proof. intros; repeat split; auto. Qed.
+
+  Lemma upd_same : forall p v (f : fs), upd p v f p = v.
+  Proof. intros; unfold upd. destruct (path_eq_dec p p); congruence. Qed.
+  Lemma upd_other : forall p q v (f : fs), q <> p -> upd p v f q = f q.
+  Proof. intros; unfold upd. destruct (path_eq_dec q p); congruence. Qed.
+
+  Lemma agrees_upd : forall A f g a b v, agrees A f g (a, b) -> agrees A f (upd A v g) (v, b).
+  Proof.
+    intros A f g a b v [Ha [Hb Hf]]. pose proof (bak_neq A). cbn in *.
+    repeat split; cbn.
+    - apply upd_same.
+    - rewrite upd_other; auto.
+    - intros q H1 H2. rewrite upd_other; auto.
+  Qed.
+
+  Lemma agrees_rename_fwd : forall A f g c b,
+      agrees A f g (Some c, b) ->
+      exists g', rename A (bak A) g = Some g' /\ agrees A f g' (None, Some c).
+  Proof.
+    intros A f g c b [Ha [Hb Hf]]. pose proof (bak_neq A) as Hn. cbn in *.
+    unfold rename. rewrite Ha. destruct (path_eq_dec A (bak A)); [congruence|].
+    eexists; split; [reflexivity|]. repeat split; cbn.
+    - apply upd_same.
+    - rewrite upd_other, upd_same; auto.
+    - intros q H1 H2. rewrite !upd_other; auto.
+  Qed.
+  Lemma agrees_rename_fwd_none : forall A f g b,
+      agrees A f g (None, b) -> rename A (bak A) g = None.
+  Proof. intros A f g b [Ha _]. cbn in Ha. unfold rename. rewrite Ha. reflexivity. Qed.
+
+  Lemma agrees_rename_back : forall A f g a c,
+      agrees A f g (a, Some c) ->
+      exists g', rename (bak A) A g = Some g' /\ agrees A f g' (Some c, None).
+  Proof.
+    intros A f g a c [Ha [Hb Hf]]. pose proof (bak_neq A) as Hn. cbn in *.
+    unfold rename. rewrite Hb. destruct (path_eq_dec (bak A) A); [congruence|].
+    eexists; split; [reflexivity|]. repeat split; cbn.
+    - rewrite upd_other, upd_same; auto.
+    - apply upd_same.
+    - intros q H1 H2. rewrite !upd_other; auto.
+  Qed.
+
+  Lemma agrees_remove : forall A f g a c,
+      agrees A f g (a, Some c) ->
+      exists g', remove (bak A) g = Some g' /\ agrees A f g' (a, None).
+  Proof.
+    intros A f g a c [Ha [Hb Hf]]. pose proof (bak_neq A) as Hn. cbn in *.
+    unfold remove. rewrite Hb.
+    eexists; split; [reflexivity|]. repeat split; cbn.
+    - rewrite upd_other; auto.
+    - apply upd_same.
+    - intros q H1 H2. rewrite !upd_other; auto.
+  Qed.
+
   Ltac split_sch sch :=
     repeat match goal with
            | |- context [sch ?s] =>
@@ -52,12 +170,116 @@ Section Proofs.
                destruct (sch s) as [[[|] ?]|] eqn:e; cbn [fkind fdisk] in H
            end.
 
-  Ltac unfold_save :=
-    unfold save, save_content, dumps_at, dumps_res, rename, remove.
-  Ltac unfold_save_in H :=
-    unfold save, save_content, dumps_at, dumps_res, rename, remove in H.
+  Lemma save_content_sim :
+    forall pos new A (sch : schedule) f g a b,
+      agrees A f g (a, b) ->
+      snd (save_content pos new A sch g) = snd (body2 pos new sch a) /\
+      agrees A f (fst (save_content pos new A sch g)) (fst (body2 pos new sch a), b).
+  Proof.
+    intros pos new A sch f g a b Hag.
+    unfold save_content, body2, dumps_at, dumps_res.
+    destruct pos, new as [c|]; split_sch sch; cbn [fst snd];
+      (split; [reflexivity|]); eauto using agrees_upd.
+  Qed.
 
-  (** ** Results that hold for every fault schedule *)
+  Theorem save_sim :
+    forall pos keep new A (sch : schedule) (f : fs),
+      snd (save pos keep new A sch f) = snd (save2 pos keep new sch (f A, f (bak A))) /\
+      agrees A f (fst (save pos keep new A sch f)) (fst (save2 pos keep new sch (f A, f (bak A)))).
+  Proof.
+    intros pos keep new A sch f.
+    pose proof (agrees_refl A f) as H0.
+    unfold save, save2.
+    destruct (dumps_at match pos with DFirst => true | _ => false end sch new) as [k|];
+      [cbn; split; [reflexivity | exact H0]|].
+    destruct (sch SBackup) as [ft|]; [cbn; split; [reflexivity | exact H0]|].
+    cbn [fst].
+    destruct (f A) as [c0|] eqn:HA.
+    2:{ rewrite (agrees_rename_fwd_none A f f _ H0). cbn. split; [reflexivity | exact H0]. }
+    destruct (agrees_rename_fwd A f f c0 _ H0) as [g1 [Hr H1]]. rewrite Hr.
+    destruct (save_content_sim pos new A sch f g1 None (Some c0) H1) as [Ho H2].
+    destruct (save_content pos new A sch g1) as [g2 r]. destruct (body2 pos new sch None) as [a2 r2].
+    cbn [fst snd] in Ho, H2. subst r2.
+    destruct r as [|[|] s].
+    - destruct keep; [cbn; split; [reflexivity | exact H2]|].
+      destruct (sch SRemove) as [ft|]; [cbn; split; [reflexivity | exact H2]|].
+      destruct (agrees_remove A f g2 a2 c0 H2) as [g3 [Hrm H3]]. rewrite Hrm.
+      cbn; split; [reflexivity | exact H3].
+    - destruct (sch SRestore) as [ft|]; [cbn; split; [reflexivity | exact H2]|].
+      destruct (agrees_rename_back A f g2 a2 c0 H2) as [g3 [Hrb H3]]. rewrite Hrb.
+      cbn; split; [reflexivity | exact H3].
+    - cbn; split; [reflexivity | exact H2].
+  Qed.
+
+  (* transfer: what [save] returns, read on the footprint *)
+  Lemma save_view :
+    forall pos keep new A (sch : schedule) (f f' : fs) o,
+      save pos keep new A sch f = (f', o) ->
+      save2 pos keep new sch (f A, f (bak A)) = ((f' A, f' (bak A)), o) /\ frame A f f'.
+  Proof.
+    intros pos keep new A sch f f' o H.
+    destruct (save_sim pos keep new A sch f) as [Ho [Ha [Hb Hf]]].
+    rewrite H in *. cbn [fst snd] in *.
+    destruct (save2 pos keep new sch (f A, f (bak A))) as [[a b] o2]. cbn [fst snd] in *.
+    subst. split; auto.
+  Qed.
+
+  Ltac eval2 sch :=
+    unfold save2, body2, dumps_at, dumps_res; cbn [fst snd];
+    split_sch sch; cbn [fst snd].
+
+  (** ** Results that hold for every fault schedule, on the footprint *)
+
+  Lemma save2_done_correct :
+    forall pos keep new (sch : schedule) old b a' b',
+      save2 pos keep new sch (Some old, b) = ((a', b'), Done) ->
+      exists c, new = Some c /\ a' = Some c /\ b' = (if keep then Some old else None).
+  Proof.
+    intros pos keep new sch old b a' b' H.
+    unfold save2, body2, dumps_at, dumps_res in H; cbn [fst snd] in H.
+    destruct pos, new as [c|], keep; split_sch sch; cbn in H;
+      try discriminate; inversion H; subst; eauto.
+  Qed.
+
+  Lemma save2_raised_keeps_old :
+    forall pos keep new (sch : schedule) old b a' b' k s,
+      save2 pos keep new sch (Some old, b) = ((a', b'), Raised k s) ->
+      a' = Some old \/ b' = Some old.
+  Proof.
+    intros pos keep new sch old b a' b' k s H.
+    unfold save2, body2, dumps_at, dumps_res in H; cbn [fst snd] in H.
+    destruct pos, new as [c|], keep; split_sch sch; cbn in H;
+      try discriminate; inversion H; subst; auto.
+  Qed.
+
+  Lemma save2_exception_restores :
+    forall pos keep new (sch : schedule) old b a' b' s,
+      save2 pos keep new sch (Some old, b) = ((a', b'), Raised KExc s) ->
+      s <> SRestore -> s <> SRemove ->
+      a' = Some old /\
+      (body_step s = true -> (pos = DFirst -> s <> SDumps) -> b' = None) /\
+      (b = None -> b' = None).
+  Proof.
+    intros pos keep new sch old b a' b' s H H1 H2.
+    unfold save2, body2, dumps_at, dumps_res in H; cbn [fst snd] in H.
+    destruct pos, new as [c|], keep; split_sch sch; cbn in H;
+      try discriminate; inversion H; subst; try congruence;
+      (repeat split; auto; intros; try discriminate; try congruence).
+  Qed.
+
+  Lemma save2_interrupt_keeps_backup :
+    forall pos keep new (sch : schedule) old b a' b' s,
+      save2 pos keep new sch (Some old, b) = ((a', b'), Raised KBase s) ->
+      body_step s = true -> (pos = DFirst -> s <> SDumps) ->
+      b' = Some old.
+  Proof.
+    intros pos keep new sch old b a' b' s H H1 H2.
+    unfold save2, body2, dumps_at, dumps_res in H; cbn [fst snd] in H.
+    destruct pos, new as [c|], keep; split_sch sch; cbn in H;
+      try discriminate; inversion H; subst; try discriminate; try congruence; auto.
+  Qed.
+
+  (** ** The same, for [save] on an arbitrary file system *)
 
   (** Whenever [save] returns normally - under any schedule whatsoever - the
       target holds the new content, the backup holds the old content iff
@@ -70,11 +292,9 @@ Section Proofs.
                 f' (bak A) = (if keep then Some old else None) /\ frame A f f'.
   Proof.
     intros pos keep new A sch f f' old HA H.
-    pose proof (bak_neq A) as Hb.
-    unfold_save_in H. rewrite HA in H.
-    destruct pos, new as [c|], keep; split_sch sch; cbn in H; unfold upd in H; pe;
-      try discriminate; inversion H; subst; clear H;
-      (exists c; repeat split; unfold frame, upd; intros; pe; auto).
+    destruct (save_view _ _ _ _ _ _ _ _ H) as [H2 Hf]. rewrite HA in H2.
+    destruct (save2_done_correct _ _ _ _ _ _ _ _ H2) as [c [? [? ?]]].
+    exists c; auto.
   Qed.
 
   (** Whenever [save] raises - any schedule, any kind of exception, any step -
@@ -87,11 +307,8 @@ Section Proofs.
       (f' A = Some old \/ f' (bak A) = Some old) /\ frame A f f'.
   Proof.
     intros pos keep new A sch f f' old k s HA H.
-    pose proof (bak_neq A) as Hb.
-    unfold_save_in H. rewrite HA in H.
-    destruct pos, new as [c|], keep; split_sch sch; cbn in H; unfold upd in H; pe;
-      try discriminate; inversion H; subst; clear H;
-      (split; [ unfold upd; pe; auto | unfold frame, upd; intros; pe; auto ]).
+    destruct (save_view _ _ _ _ _ _ _ _ H) as [H2 Hf]. rewrite HA in H2.
+    split; [exact (save2_raised_keeps_old _ _ _ _ _ _ _ _ _ _ H2) | exact Hf].
   Qed.
 
   (** Whenever an [Exception] propagates out of [save] from any step other than
@@ -111,14 +328,9 @@ Section Proofs.
       frame A f f'.
   Proof.
     intros pos keep new A sch f f' old s HA H Hs1 Hs2.
-    pose proof (bak_neq A) as Hb.
-    unfold_save_in H. rewrite HA in H.
-    destruct pos, new as [c|], keep; split_sch sch; cbn in H; unfold upd in H; pe;
-      try discriminate; inversion H; subst; clear H; try congruence;
-      (repeat split; [ unfold upd; pe; auto
-                     | intros; unfold upd; pe; auto; try discriminate; try congruence
-                     | intros; unfold upd; pe; auto
-                     | unfold frame, upd; intros; pe; auto ]).
+    destruct (save_view _ _ _ _ _ _ _ _ H) as [H2 Hf]. rewrite HA in H2.
+    destruct (save2_exception_restores _ _ _ _ _ _ _ _ _ H2 Hs1 Hs2) as [? [? ?]].
+    auto.
   Qed.
 
   (** a BaseException that is not an Exception (KeyboardInterrupt) raised inside
@@ -131,14 +343,24 @@ Section Proofs.
       f' (bak A) = Some old.
   Proof.
     intros pos keep new A sch f f' old s HA H Hb1 Hb2.
-    pose proof (bak_neq A) as Hb.
-    unfold_save_in H. rewrite HA in H.
-    destruct pos, new as [c|], keep; split_sch sch; cbn in H; unfold upd in H; pe;
-      try discriminate; inversion H; subst; clear H; try discriminate; try congruence;
-      unfold upd; pe; auto.
+    destruct (save_view _ _ _ _ _ _ _ _ H) as [H2 Hf]. rewrite HA in H2.
+    exact (save2_interrupt_keeps_backup _ _ _ _ _ _ _ _ _ H2 Hb1 Hb2).
   Qed.
 
   (** ** Particular schedules *)
+
+  (* [save] on a concrete schedule: compute on the footprint, transfer *)
+  Lemma save_by_view :
+    forall pos keep new A (sch : schedule) (f : fs) a' b' o,
+      save2 pos keep new sch (f A, f (bak A)) = ((a', b'), o) ->
+      exists f', save pos keep new A sch f = (f', o) /\ f' A = a' /\ f' (bak A) = b' /\ frame A f f'.
+  Proof.
+    intros pos keep new A sch f a' b' o H2.
+    destruct (save_sim pos keep new A sch f) as [Ho [Ha [Hb Hf]]].
+    rewrite H2 in *. cbn [fst snd] in *.
+    destruct (save pos keep new A sch f) as [f' o']. cbn [fst snd] in *. subst o'.
+    exists f'; auto.
+  Qed.
 
   Theorem save_success :
     forall pos keep c A (f : fs) old,
@@ -149,10 +371,8 @@ Section Proofs.
                  frame A f f'.
   Proof.
     intros pos keep c A f old HA.
-    pose proof (bak_neq A) as Hb.
-    unfold_save; unfold no_fault. rewrite HA.
-    destruct pos, keep; cbn; unfold upd; pe;
-      (eexists; split; [reflexivity|]; repeat split; unfold frame; intros; pe; auto).
+    apply save_by_view. rewrite HA.
+    destruct pos, keep; reflexivity.
   Qed.
 
   Lemma single_same : forall k (ft : fault), single k ft k = Some ft.
@@ -177,10 +397,15 @@ Section Proofs.
                  frame A f f'.
   Proof.
     intros pos keep c A f old k [kk d] HA Hk Hkind. cbn in Hkind; subst kk.
-    pose proof (bak_neq A) as Hb.
-    unfold_save. rewrite HA.
-    destruct k; try discriminate; destruct pos, keep; cbn; unfold upd; pe;
-      (eexists; split; [reflexivity|]; repeat split; unfold frame; intros; pe; auto; congruence).
+    assert (H2 : exists b', save2 pos keep (Some c) (single k (mkFault KExc d)) (f A, f (bak A))
+                            = ((Some old, b'), Raised KExc k) /\
+                            (k <> SBackup -> (pos = DFirst -> k <> SDumps) -> b' = None) /\
+                            (f (bak A) = None -> b' = None)).
+    { rewrite HA. destruct k; try discriminate; destruct pos, keep; cbn;
+        eexists; (split; [reflexivity|]); split; intros; auto; congruence. }
+    destruct H2 as [b' [H2 [Hb1 Hb2]]].
+    destruct (save_by_view _ _ _ _ _ _ _ _ _ H2) as [f' [Hs [Ha [Hb Hf]]]].
+    exists f'. subst b'. auto.
   Qed.
 
   (** the serialiser itself rejects the document (new = None), nothing else
@@ -192,10 +417,12 @@ Section Proofs.
                  f' A = Some old /\ (f (bak A) = None -> f' (bak A) = None) /\ frame A f f'.
   Proof.
     intros pos keep A f old HA.
-    pose proof (bak_neq A) as Hb.
-    unfold_save; unfold no_fault. rewrite HA.
-    destruct pos, keep; cbn; unfold upd; pe;
-      (eexists; split; [reflexivity|]; repeat split; unfold frame; intros; pe; auto).
+    assert (H2 : exists b', save2 pos keep None no_fault (f A, f (bak A)) = ((Some old, b'), Raised KExc SDumps) /\
+                            (f (bak A) = None -> b' = None)).
+    { rewrite HA. destruct pos, keep; cbn; eexists; split; try reflexivity; auto. }
+    destruct H2 as [b' [H2 Hb2]].
+    destruct (save_by_view _ _ _ _ _ _ _ _ _ H2) as [f' [Hs [Ha [Hb Hf]]]].
+    exists f'. subst b'. auto.
   Qed.
 
   (** the target does not exist: FileNotFoundError from the first rename, nothing changes *)
@@ -203,7 +430,8 @@ Section Proofs.
     forall pos keep c A (f : fs),
       f A = None -> save pos keep (Some c) A no_fault f = (f, Raised KExc SBackup).
   Proof.
-    intros pos keep c A f HA. unfold_save; unfold no_fault. rewrite HA. destruct pos; reflexivity.
+    intros pos keep c A f HA.
+    unfold save, dumps_at, dumps_res, rename, no_fault. rewrite HA. destruct pos; reflexivity.
   Qed.
 
   (** ** What happens outside the statement (stated, not hidden) *)
@@ -219,11 +447,13 @@ Section Proofs.
                  f' A = (match k with SDumps => match pos with DInside => Some [] | _ => None end | _ => d end).
   Proof.
     intros pos keep c A f old k d HA Hk Hp.
-    pose proof (bak_neq A) as Hb.
-    unfold_save. rewrite HA.
-    destruct k; try discriminate; destruct pos, keep; cbn; unfold upd; pe;
-      try (exfalso; apply Hp; reflexivity);
-      (eexists; split; [reflexivity|]; split; pe; auto).
+    assert (H2 : save2 pos keep (Some c) (single k (mkFault KBase d)) (f A, f (bak A))
+                 = ((match k with SDumps => match pos with DInside => Some [] | _ => None end | _ => d end,
+                     Some old), Raised KBase k)).
+    { rewrite HA. destruct k; try discriminate; destruct pos, keep; cbn; try reflexivity;
+        exfalso; apply Hp; reflexivity. }
+    destruct (save_by_view _ _ _ _ _ _ _ _ _ H2) as [f' [Hs [Ha [Hb Hf]]]].
+    exists f'; auto.
   Qed.
 
   (** the final os.remove fails (no --backup): the new content is in place, the
@@ -235,9 +465,11 @@ Section Proofs.
                  f' A = Some c /\ f' (bak A) = Some old.
   Proof.
     intros pos c A f old ft HA.
-    pose proof (bak_neq A) as Hb.
-    unfold_save. rewrite HA.
-    destruct pos; cbn; unfold upd; pe; (eexists; split; [reflexivity|]; split; pe; auto).
+    assert (H2 : save2 pos false (Some c) (single SRemove ft) (f A, f (bak A))
+                 = ((Some c, Some old), Raised (fkind ft) SRemove)).
+    { rewrite HA. destruct pos; reflexivity. }
+    destruct (save_by_view _ _ _ _ _ _ _ _ _ H2) as [f' [Hs [Ha [Hb Hf]]]].
+    exists f'; auto.
   Qed.
 
   (** double fault: a body step fails and then the restoring rename fails too:
@@ -250,10 +482,11 @@ Section Proofs.
                  f' A = d /\ f' (bak A) = Some old.
   Proof.
     intros pos keep c A f old k d ft2 HA Hk Hd.
-    pose proof (bak_neq A) as Hb.
-    unfold_save. rewrite HA.
-    destruct k; try discriminate; try congruence; destruct pos, keep; cbn; unfold upd; pe;
-      (eexists; split; [reflexivity|]; split; pe; auto).
+    assert (H2 : save2 pos keep (Some c) (sched_of [(k, mkFault KExc d); (SRestore, ft2)]) (f A, f (bak A))
+                 = ((d, Some old), Raised (fkind ft2) SRestore)).
+    { rewrite HA. destruct k; try discriminate; try congruence; destruct pos, keep; reflexivity. }
+    destruct (save_by_view _ _ _ _ _ _ _ _ _ H2) as [f' [Hs [Ha [Hb Hf]]]].
+    exists f'; auto.
   Qed.
 
   (** an A.bak that existed before the call is silently replaced, and deleted
@@ -264,9 +497,10 @@ Section Proofs.
       exists f', save pos false (Some c) A no_fault f = (f', Done) /\ f' (bak A) = None.
   Proof.
     intros pos c A f old x HA HB.
-    pose proof (bak_neq A) as Hb.
-    unfold_save; unfold no_fault. rewrite HA.
-    destruct pos; cbn; unfold upd; pe; (eexists; split; [reflexivity|]; pe; auto).
+    assert (H2 : save2 pos false (Some c) no_fault (f A, f (bak A)) = ((Some c, None), Done)).
+    { rewrite HA. destruct pos; reflexivity. }
+    destruct (save_by_view _ _ _ _ _ _ _ _ _ H2) as [f' [Hs [Ha [Hb Hf]]]].
+    exists f'; auto.
   Qed.
 
   (** ** The command line level *)
@@ -305,7 +539,11 @@ Section Proofs.
       destruct (sch SApply); [inversion H; auto|].
       exfalso.
       unfold save, save_content, dumps_at, dumps_res, rename, remove in H.
-      destruct pos, (dump (apply_delta d a)), keep, (f A); split_sch sch; cbn in H;
+      destruct pos, (dump (apply_delta d a)), keep, (f A);
+        repeat match goal with
+               | H : context [sch ?s] |- _ =>
+                   let e := fresh "E" in destruct (sch s) as [[[|] ?]|] eqn:e; cbn [fkind fdisk] in H
+               end; cbn in H;
         try discriminate; inversion H; subst;
         destruct Hs as [Hs|[Hs|Hs]]; discriminate.
     Qed.
